@@ -17,18 +17,18 @@ common.import_repo()
 from autobean_refactor import models  # noqa: E402
 
 ALTS: dict[str, list[str]] = {
-    'DATE': ['1999-12-31', '2000-1-1', '12345-06-07', '2000/01/02', '2000-1/2'],
+    'DATE': ['1999-12-31', '2000-1-1', '2000/01/02', '2000-1/2'],
     'NUMBER': ['7', '1234.50', '1,234', '0.', '007'],
     'ACCOUNT': ['Assets:B', 'Liabilities:Credit-Card:X1'],
     'CURRENCY': ['AB', "X.Y-Z'1"],
-    'ESCAPED_STRING': ['""', '"longer string"', '"two\nlines"', '"q\\"q"'],
+    'ESCAPED_STRING': ['""', '"longer string"', '"two\nlines"', '"a\nb\nc"', '"q\\"q"'],
     'TAG': ['#x', '#longer-tag'],
     'LINK': ['^x', '^longer.link'],
     'META_KEY': ['zz:', 'longer-key:'],
     'BOOL': ['TRUE', 'FALSE'],
     'TRANSACTION_FLAG': ['!', 'txn', '*'],
     'POSTING_FLAG': ['*', '!'],
-    'BLOCK_COMMENT': ['; n', '; n1\n; n2', ';', ';x', ';; header', ';\ttab\n;  two blanks'],
+    'BLOCK_COMMENT': ['; n', '; n1\n; n2', '; m1\n; m2\n; m3', ';', ';x', ';; header', ';\ttab\n;  two blanks'],
     'INLINE_COMMENT': ['; other', ';', ';x', ';;  spaced'],
     'INDENT': ['  ', '\t', '        '],
     'WHITESPACE': ['   ', '\t'],
@@ -41,7 +41,7 @@ ALTS: dict[str, list[str]] = {
 
 
 INVALID: dict[str, list[str]] = {       # raw texts the token type cannot represent: the assignment must be refused
-    'DATE': ['xxxx', '2000-13-45'], 'NUMBER': ['abc'], 'BOOL': ['MAYBE'], 'BLOCK_COMMENT': ['no semicolon'],
+    'DATE': ['xxxx', '2000-13-45', '12345-06-07'], 'NUMBER': ['abc'], 'BOOL': ['MAYBE'], 'BLOCK_COMMENT': ['no semicolon'],
 }
 
 
@@ -106,8 +106,11 @@ def _chunk(arg: tuple) -> tuple[int, int, list, list]:
                     for i, via, alt in plan:
                         t = toks[i]
                         n_assign += 1
+                        invalid = alt in INVALID.get(t.RULE, [])
                         if via == 'raw':
-                            rec.assign(store, t, lambda: setattr(t, 'raw_text', alt), expect_text=alt)
+                            e1 = rec.assign(store, t, lambda: setattr(t, 'raw_text', alt), expect_text=alt)
+                            if e1 is not None and not invalid:
+                                value_bad.append((text, i, f'raw_text = {alt!r} (a lexeme of the type) raised {type(e1).__name__}: {e1}'))
                         else:
                             try:
                                 v = type(t).from_raw_text(alt).value
@@ -115,7 +118,9 @@ def _chunk(arg: tuple) -> tuple[int, int, list, list]:
                                 continue
                             exc = rec.assign(store, t, lambda: setattr(t, 'value', v))
                             if exc is None and t.value != v:
-                                value_bad.append((text, i, repr(alt)))
+                                value_bad.append((text, i, f'value assigned from {alt!r} does not read back'))
+                            elif exc is not None:
+                                value_bad.append((text, i, f'value = {v!r} (in the type\'s domain) raised {type(exc).__name__}: {exc}'))
     finally:
         rec.uninstall()
         store_replay.set_load_factor(1000)
@@ -153,7 +158,7 @@ def core(prop: str, tier: str, rep: common.Reporter) -> dict:
             traces.extend(tr)
             for text, i, alt in vb:
                 if prop == 'C02':
-                    rep.violation('C02/value-readback', {'what': f'value assigned from {alt} does not read back', 'text': text, 'token': i})
+                    rep.violation('C02/assignment-failed', {'what': alt, 'text': text, 'token': i})
     tv = tracecheck.validate_store_traces(traces, batch=2500)
     for e in tv['errors']:
         rep.machinery_error(f'trace validation: {e}')
